@@ -21,7 +21,8 @@
 
    waitjobs is modelled as of b6f8314 ("waitjobs deletes a re-added job, or raises KeyError, when a
    dropped id was re-used or has several waiters"): a dropped job's id2job entry is deleted only while
-   it still refers to the waited-for object.
+   it still refers to the waited-for object; and of a8ac510 ("qwait on a just-finished job hangs forever
+   when an earlier waiter disconnects first"): the finish event is waited for only while the job is not done.
 
    Outside the properties' alphabets but modelled (needed to reach "the newest job is gone at save
    time", C18): Drop = dropjobs (+ the deletion in waitjobs), Watchdog = dropdead, Advance = the
@@ -217,9 +218,11 @@ Fixpoint cnt_set (cs : list (N * counts)) (c : N) (v : counts) : list (N * count
   | (k, w) :: r => if k =? c then (k, v) :: r else (k, w) :: cnt_set r c v
   end.
 
-(* gevent Event: set() schedules the notifier callback only when somebody is linked (waiting);
-   while that callback is pending, a NEW wait() on the already-set event also blocks until it ran
-   (gevent's _wait: "already notifying: wait to be notified", for fairness). *)
+(* gevent Event: set() schedules the notifier callback only when somebody is linked (waiting).  While that
+   callback is pending, a NEW wait() on the already-set event would also block (gevent's _wait: "already
+   notifying: wait to be notified") - and lose its wake-up when the earlier waiters die first; waitjobs
+   therefore never waits on the event of a finished job (a8ac510), and the model's Wait does not either.
+   done_pending is kept for the statements about the hub (a blocked waiter of a finished job has its wake-up queued). *)
 Fixpoint has_waiter (ser : N) (cs : list conn) : bool :=
   match cs with
   | [] => false
@@ -583,7 +586,7 @@ Definition step (s : state) (o : op) : state * list out :=
         match getjob (s_jobs s) ser with
         | None => (s, [OKeyErr])
         | Some j =>
-          if j_done j && negb (done_pending ser (s_hub s)) then
+          if j_done j then                                     (* jobs.py:228 `if not j.done:` (a8ac510): no wait on a finished job *)
             ((if j_drop j && id_is (s_ids s) (j_id j) ser then set_ids (id_del (s_ids s) (j_id j)) s else s),
              [OReleased c j])                                                                 (* jobs.py:229-232 *)
           else
